@@ -1781,3 +1781,68 @@ def primitive_rebinding(ctx, rule, modules, floor=1):
             R.bad(rule, f'{cn}.{fn.name} | {norm(st)[:50]}', f'{fn.name} replaces the {kind} that was created in __init__ (`{norm(st)[:60]}`): a task already waiting on the old object is never woken - every later set() / release() goes to the new one, also when the channel or its link goes away', p.loc(st))
     ctl = ast.parse('class A:\n    def __init__(self):\n        self.ev = asyncio.Event()\n    def w(self):\n        self.ev = asyncio.Event()\n    def c(self):\n        self.ev.clear()\n').body[0]
     R.check(len(rebinds(ctl)[1]) == 1 and n >= floor, rule, f'{", ".join(modules)} | synchronisation primitives', f'{n} primitives created in __init__, none replaced afterwards (positive control matched)', f'only {n} primitives found / control not matched')
+
+
+# ---------------------------------------------------------------------------------------------------------------------
+def copy_updates(fn):
+    """(statement, table) where a local that was looked up in a table (`x = T.get(k)`, `x := T[k]`) is replaced by a new
+    container built from it (`x = x - {e}`, `x = [y for y in x if ...]`) and never stored back: the table keeps the old
+    object, the update is lost."""
+    out = []
+    bound = {}
+    for st in walk_local(fn):
+        tgt = val = None
+        if isinstance(st, ast.Assign) and isinstance(st.targets[0], ast.Name):
+            tgt, val = st.targets[0].id, st.value
+        if isinstance(st, ast.NamedExpr):
+            tgt, val = st.target.id, st.value
+        if tgt and ((isinstance(val, ast.Call) and isinstance(val.func, ast.Attribute) and val.func.attr in ('get', 'setdefault')) or isinstance(val, ast.Subscript)):
+            base = val.func.value if isinstance(val, ast.Call) else val.value
+            if dotted(base):
+                bound.setdefault(tgt, (st.lineno, dotted(base)))
+    for st in walk_local(fn):
+        if not (isinstance(st, ast.Assign) and isinstance(st.targets[0], ast.Name) and st.targets[0].id in bound and st.lineno > bound[st.targets[0].id][0]):
+            continue
+        name, v = st.targets[0].id, st.value
+        rebuilt = False
+        if isinstance(v, ast.BinOp) and isinstance(v.op, (ast.Sub, ast.BitOr, ast.BitAnd, ast.Add)) and isinstance(v.left, ast.Name) and v.left.id == name and isinstance(v.right, (ast.Set, ast.List, ast.Dict, ast.SetComp, ast.ListComp, ast.DictComp, ast.Call)):
+            rebuilt = True
+        if isinstance(v, (ast.ListComp, ast.SetComp, ast.DictComp)) and any(isinstance(g.iter, ast.Name) and g.iter.id == name for g in v.generators):
+            rebuilt = True
+        if not rebuilt:
+            continue
+        table = bound[name][1]
+        back = any(isinstance(s2, ast.Assign) and isinstance(s2.targets[0], ast.Subscript) and dotted(s2.targets[0].value) == table and s2.lineno > st.lineno and any(isinstance(x, ast.Name) and x.id == name for x in ast.walk(s2.value)) for s2 in walk_local(fn))
+        if not back:
+            out.append((st, table))
+    return out
+
+
+def copy_update(ctx, rule, modules):
+    R, p = ctx.r, ctx.p
+    n = 0
+    for mn in modules:
+        m = p.modules.get(mn)
+        if m is None:
+            R.bad(rule, mn, 'anchor missing')
+            continue
+        # on the source as written: the canonical form turns `x = x - y` into `x -= y`, which for a set is the in-place
+        # (correct) update this rule has to tell from the copying one
+        raw = ast.parse(m.src)
+
+        def funcs(node, prefix):
+            for ch in ast.iter_child_nodes(node):
+                if isinstance(ch, ast.ClassDef):
+                    yield from funcs(ch, prefix + [ch.name])
+                elif isinstance(ch, FUNC):
+                    yield prefix + [ch.name], ch
+                    yield from funcs(ch, prefix + [ch.name])
+                else:
+                    yield from funcs(ch, prefix)
+        for qn, fn in funcs(raw, [mn]):
+            n += 1
+            for st, table in copy_updates(fn):
+                R.bad(rule, f'{".".join(qn)} | {norm(st)[:50]}', f'`{norm(st)[:70]}` builds a new container and binds it to the local only: the object held in `{table}` is unchanged, so the removal / addition never takes effect (and a test of the local afterwards does not see what the table holds)', f'{m.rel}:{st.lineno}')
+    ctl = ast.parse('def f(self, k, e):\n    if (s := self.table.get(k)):\n        s = s - {e}\n        if not s:\n            del self.table[k]\ndef g(self, k, e):\n    s = self.table.get(k)\n    s = s - {e}\n    self.table[k] = s\n')
+    hits = [len(copy_updates(f)) for f in ctl.body]
+    R.check(hits == [1, 0] and n >= 10, rule, f'{", ".join(modules)} | looked-up containers', f'{n} functions, no update applied to a rebuilt copy only (positive control matched)', f'control {hits}')
